@@ -640,4 +640,6 @@ def base_result(sim, violations, summary=None, extra=None):
     }
     if extra:
         res.update(extra)
+    if getattr(sim, "clock_steps", 0):
+        res["faults"] = dict(res.get("faults") or {}, wall_clock_step=sim.clock_steps)
     return res
